@@ -59,7 +59,7 @@ func (P) Describe() harness.Description {
 			"after every op: one outcome per Entry, exactly one pass|block callback with the right resource and batch, exactly one completion per passed entry with its own last error and rt, none for blocked, late calls change nothing (callback log, figures, other live entries' Err()/Args), node and inbound concurrency == live entries (never negative), windowed sums == reference window of the tallied events. " +
 			"E2 (25%): 2-4 callers, same conservation at quiescence and per-entry attribution. non-trivial = a pooled object was handed to a second entry or a panic path ran; distinct = hash(config, ops[, schedule])",
 		Assumptions: []string{"panics inside user statistic slots or exit handlers are outside the domain (none are generated)", "E2 runs with the clock frozen so that all figures fall into one window"},
-		Real:        []string{"api.Entry/TraceError, SentinelEntry.Exit", "core/base slot chain, entry, context pools", "core/stat stat slot, nodes, inbound node", "core/flow, core/isolation, core/hotspot slots and rule managers", "the same code a second time on a worker built for GOARCH=386 (a quarter of the budget, seed + 386000): int and pointers of 32 bits - skipped with a note where such a worker cannot be built or run"},
+		Real:        []string{"api.Entry/TraceError, SentinelEntry.Exit", "core/base slot chain, entry, context pools", "core/stat stat slot, nodes, inbound node", "core/flow, core/isolation, core/hotspot slots and rule managers"},
 		Stub:        []string{"util.Clock (virtual clock)", "sync.Pool (SimPool: reuse order seeded)", "E2: goroutine scheduling"},
 	}
 }
